@@ -169,6 +169,7 @@ type c04Eng struct {
 	stuck     string
 	panicked  bool
 	lastCmdAt time.Time
+	started []*dissolve.Dissolver
 	expectClosing bool
 	wake chan struct{}
 	why map[string]int
@@ -430,6 +431,7 @@ func c04NewEng(armed []c04Gk, nch int) (*c04Eng, error) {
 	}
 	// Dissolver jobs start on their own 1 s after submission. To keep their start under the driver's
 	// control the node gets a dissolver whose workers are only started by the drain command.
+	_ = n.subDissolver.Close()
 	n.subDissolver = dissolve.New(numSubDissolverWorkers)
 	mk := func(user string, tr *c04Transport) (*Client, error) {
 		ctx, cancel := context.WithCancel(context.Background())
@@ -470,6 +472,9 @@ func (e *c04Eng) shutdown() {
 	ctx, cancel := context.WithTimeout(context.Background(), 2*time.Second)
 	defer cancel()
 	_ = e.node.Shutdown(ctx)
+	for _, d := range e.started {
+		_ = d.Close()
+	}
 }
 
 func (e *c04Eng) onSubscribe(ev SubscribeEvent, cb SubscribeCallback) {
@@ -933,6 +938,7 @@ func (e *c04Eng) drain() {
 	e.addCmd("CDrain", "drain")
 	d := e.node.subDissolver
 	e.node.subDissolver = dissolve.New(numSubDissolverWorkers)
+	e.started = append(e.started, d)
 	_ = d.Run()
 	wait := 1150*time.Millisecond - time.Since(e.lastCmdAt)
 	if wait > 0 {
